@@ -65,7 +65,9 @@ func concOps() []concOp {
 			}
 			return out + fmt.Sprintf("%x", []byte(r.GetUnknown()))
 		}},
-		{"Equal", func(m, o proto.Message) string { return fmt.Sprint(proto.Equal(m, o), proto.Equal(o, m), proto.Equal(m, m)) }},
+		{"Equal", func(m, o proto.Message) string {
+			return fmt.Sprint(proto.Equal(m, o), proto.Equal(o, m), proto.Equal(m, m))
+		}},
 		{"Clone(from)", func(m, _ proto.Message) string {
 			c := proto.Clone(m)
 			b, _ := detOpts.Marshal(c)
@@ -121,89 +123,92 @@ func engineConc(rep *Report) {
 		rep.Types = append(rep.Types, tn)
 		d := s.Zero.ProtoReflect().Descriptor()
 		for round := 0; round < rounds; round++ {
-			seed := caseSeed(*flagSeed, tn, round, "conc")
-			o := defaultGen()
-			o.NoSNaN = true
-			o.LongValues = false
-			o.PFill = 0.5
-			if round%3 == 2 {
-				o.PFill = 0.1 // mostly unset fields: reads of unpopulated composites
-			}
-			g := NewGen(seed, o)
-			v := g.Msg(d, 0)
-			v2 := g.Msg(d, 0)
-			// construction route (never through the codec/reflection of the subject in round 0: first use is raced)
-			var shared, other proto.Message
-			route := round % 4
-			switch {
-			case round == 0 || route == 0:
-				shared, other = BuildStruct(s.Zero, v), BuildStruct(s.Zero, v2)
-			case route == 1:
-				shared = newOf(s.Zero)
-				_ = proto.Unmarshal(SpecEncode(v), shared)
-				other = BuildStruct(s.Zero, v2)
-			case route == 2:
-				shared = newOf(s.Zero)
-				Fill(fastView, shared, quietF32(v))
-				other = BuildStruct(s.Zero, v2)
-			default:
-				shared = proto.Clone(BuildStruct(s.Zero, v))
-				other = BuildStruct(s.Zero, v2)
-			}
-			results := make([][]string, G)
-			panics := make([]string, G)
-			var start, done sync.WaitGroup
-			start.Add(1)
-			for gi := 0; gi < G; gi++ {
-				done.Add(1)
-				gi := gi
-				go func() {
-					defer done.Done()
-					r := rand.New(rand.NewSource(seed + int64(gi)*7919))
-					perm := r.Perm(len(ops))
-					res := make([]string, len(ops))
-					start.Wait() // barrier: all readers are released together
-					pan, pmsg := safely(func() {
-						for _, oi := range perm {
-							res[oi] = ops[oi].f(shared, other)
+			round := round
+			guardCase(rep, "C11", "conc", tn, round, func() {
+				seed := caseSeed(*flagSeed, tn, round, "conc")
+				o := defaultGen()
+				o.NoSNaN = true
+				o.LongValues = false
+				o.PFill = 0.5
+				if round%3 == 2 {
+					o.PFill = 0.1 // mostly unset fields: reads of unpopulated composites
+				}
+				g := NewGen(seed, o)
+				v := g.Msg(d, 0)
+				v2 := g.Msg(d, 0)
+				// construction route (never through the codec/reflection of the subject in round 0: first use is raced)
+				var shared, other proto.Message
+				route := round % 4
+				switch {
+				case round == 0 || route == 0:
+					shared, other = BuildStruct(s.Zero, v), BuildStruct(s.Zero, v2)
+				case route == 1:
+					shared = newOf(s.Zero)
+					_ = proto.Unmarshal(SpecEncode(v), shared)
+					other = BuildStruct(s.Zero, v2)
+				case route == 2:
+					shared = newOf(s.Zero)
+					Fill(fastView, shared, quietF32(v))
+					other = BuildStruct(s.Zero, v2)
+				default:
+					shared = proto.Clone(BuildStruct(s.Zero, v))
+					other = BuildStruct(s.Zero, v2)
+				}
+				results := make([][]string, G)
+				panics := make([]string, G)
+				var start, done sync.WaitGroup
+				start.Add(1)
+				for gi := 0; gi < G; gi++ {
+					done.Add(1)
+					gi := gi
+					go func() {
+						defer done.Done()
+						r := rand.New(rand.NewSource(seed + int64(gi)*7919))
+						perm := r.Perm(len(ops))
+						res := make([]string, len(ops))
+						start.Wait() // barrier: all readers are released together
+						pan, pmsg := safely(func() {
+							for _, oi := range perm {
+								res[oi] = ops[oi].f(shared, other)
+							}
+						})
+						if pan {
+							panics[gi] = pmsg
 						}
-					})
-					if pan {
-						panics[gi] = pmsg
-					}
-					results[gi] = res
-				}()
-			}
-			start.Done()
-			done.Wait()
-			// sequential result (after the concurrent phase)
-			seq := make([]string, len(ops))
-			for oi := range ops {
-				seq[oi] = ops[oi].f(shared, other)
-			}
-			rc := replayCase{Engine: "conc", Type: tn, Seed: *flagSeed, Index: round, Value: hx(SpecEncode(v))}
-			rep.Eval("C11", []byte(fmt.Sprintf("%s|%d|%x", tn, round, SpecEncode(v))), true)
-			rep.Count("C11", "goroutines", G)
-			rep.Count("C11", "concurrent-op-executions", int64(G*len(ops)))
-			if round == 0 && len(rep.P("C11").Samples) < 3 {
-				names := []string{}
-				for _, o := range ops {
-					names = append(names, o.name)
+						results[gi] = res
+					}()
 				}
-				rep.Sample("C11", map[string]interface{}{"type": tn, "goroutines": G, "ops_each_in_seeded_permutation": names, "shared_message_hex": hx(SpecEncode(v))})
-			}
-			for gi := 0; gi < G; gi++ {
-				if panics[gi] != "" {
-					rep.Violate("C11", "conc/reader-panics", tn, panics[gi], rc)
-					break
-				}
+				start.Done()
+				done.Wait()
+				// sequential result (after the concurrent phase)
+				seq := make([]string, len(ops))
 				for oi := range ops {
-					if results[gi][oi] != seq[oi] {
-						rep.Violate("C11", "conc/result-differs-from-sequential/"+ops[oi].name, tn, fmt.Sprintf("goroutine %d: %s gave %s, sequential reader %s", gi, ops[oi].name, trunc(results[gi][oi]), trunc(seq[oi])), rc)
+					seq[oi] = ops[oi].f(shared, other)
+				}
+				rc := replayCase{Engine: "conc", Type: tn, Seed: *flagSeed, Index: round, Value: hx(SpecEncode(v))}
+				rep.Eval("C11", []byte(fmt.Sprintf("%s|%d|%x", tn, round, SpecEncode(v))), true)
+				rep.Count("C11", "goroutines", G)
+				rep.Count("C11", "concurrent-op-executions", int64(G*len(ops)))
+				if round == 0 && len(rep.P("C11").Samples) < 3 {
+					names := []string{}
+					for _, o := range ops {
+						names = append(names, o.name)
+					}
+					rep.Sample("C11", map[string]interface{}{"type": tn, "goroutines": G, "ops_each_in_seeded_permutation": names, "shared_message_hex": hx(SpecEncode(v))})
+				}
+				for gi := 0; gi < G; gi++ {
+					if panics[gi] != "" {
+						rep.Violate("C11", "conc/reader-panics", tn, panics[gi], rc)
 						break
 					}
+					for oi := range ops {
+						if results[gi][oi] != seq[oi] {
+							rep.Violate("C11", "conc/result-differs-from-sequential/"+ops[oi].name, tn, fmt.Sprintf("goroutine %d: %s gave %s, sequential reader %s", gi, ops[oi].name, trunc(results[gi][oi]), trunc(seq[oi])), rc)
+							break
+						}
+					}
 				}
-			}
+			})
 		}
 	}
 	_ = glue.All
